@@ -4,3 +4,4 @@ import Mappy.Props.C17
 import Mappy.Props.C18
 import Mappy.Props.C16
 import Mappy.Props.C06
+import Mappy.Props.C03
